@@ -410,6 +410,11 @@ def catalogue(rng, dtype=float):
     @prog('inflate-of-inflate')
     def _(b): return Infl(Tr(Infl(A(b, 2, 2), b.idx(2, 3), 3), 1, 0), b.idx(2, 4), 4)
 
+    @prog('inflate2d-transpose-inflate0-inflate0')   # past failure: merge of nested Assembles after a 2-d index was merged (wrong with _optimize)
+    def _(b):
+        D = ev.Constant(types.arraydata(numpy.array([[0, 1], [2, 0]])))
+        return Infl(Infl(Tr(Infl(A(b, 2, 2, 2), D, 3), 1, 0), ev.constant(1), 2), ev.constant(2), 3)
+
     # ---- Diagonalize / Transpose
     @prog('diagonalize-argument')
     def _(b): return ev.Diagonalize(A(b, 2, 3))
